@@ -1,6 +1,7 @@
 CONSTANTS Types = {"bool", "e3", "opt", "pair", "p", "int"}
 Rows = 2
 Depth = 2
+Dense = FALSE
 WithAlts = FALSE
 INIT Init
 NEXT Next
